@@ -164,7 +164,9 @@ def _all_consts(e, acc):
 
 def live_constants(E, st, fr):
     acc, seen = set(), set()
-    states = [st] + ([fr.old] if fr.old is not None else []) + list(fr.loop_entry)
+    # heap versions of the head (post-havoc) states of enclosing loops stay live: their frame-step obligations relate the
+    # end of the body to them through facts established inside the body (e.g. a callee's frame)
+    states = [st] + ([fr.old] if fr.old is not None else []) + list(fr.loop_entry) + list(getattr(fr, "loop_heads", []))
     if st.resume is not None:
         states.append(st.resume)
     for s in states:
@@ -187,7 +189,20 @@ def prune_pc(E, st, fr):
         return
     live = live_constants(E, st, fr)
     kept = []
+    flat = []
+
+    def _flatten(f):
+        if z3.is_and(f):
+            for c in f.children():
+                _flatten(c)
+        elif z3.is_implies(f) and z3.is_and(f.arg(1)):
+            for c in f.arg(1).children():
+                _flatten(z3.Implies(f.arg(0), c))
+        else:
+            flat.append(f)
     for f in st.pc:
+        _flatten(f)       # a conjunction is pruned conjunct by conjunct (keeps e.g. freshness w.r.t. function entry)
+    for f in flat:
         acc = set()
         _consts(f, acc, set())
         if acc <= live:
@@ -217,6 +232,11 @@ def iter_domain(E, it_node, st, fr):
             return E.mk_tuple([V(INT, i), inner["elem"](s, i)])
         return dict(kind="enum", length=inner["length"], elem=elem, seq=inner.get("seq"), inner=inner, et=inner.get("et"))
     v = E.ev(it_node, st, fr)
+    if v.t.kind == "opt" and v.t.args[0].kind in ("list", "dict"):
+        # iterating None is a TypeError; otherwise iterate the wrapped container
+        dt, none, some, val, is_none = ty.opt_sort(v.t.args[0])
+        E.raise_edge(fr, st, is_none(v.z), "TypeError", f"L{it_node.lineno}")
+        v = V(v.t.args[0], val(v.z))
     if v.t.kind == "list":
         et = v.t.args[0]
         so = seq_ops(et)
@@ -246,6 +266,17 @@ def iter_domain(E, it_node, st, fr):
             so = seq_ops(et)
             return dict(kind="seqv", length=lambda s: so.Len(res.z), elem=lambda s, i: V(et, so.At(res.z, i)), seq=lambda s: res.z, et=et)
     raise CheckerError(f"{fr.qname}: for-loop over {v.t} not modelled (line {it_node.lineno})")
+
+
+def _cover_body_end(E, fr, st, k):
+    """vacuity guard: the end of the loop body must not be refutable from the assumptions made on the way (a contradiction
+    there would discharge the invariant-step and frame-step obligations of this loop for free)"""
+    if not getattr(fr, "verify", False) or E.dry:
+        return
+    from .engine import Obligation
+    from .engine import short
+    E.obligations.append(Obligation(f"{short(fr.qname)}:cover:loop{k}:body-end", list(st.pc), z3.BoolVal(True), "cover", fr.qname,
+                                    "end of the loop body reachable", "sat", tuple(sorted(E.function_tags(fr.qname)))))
 
 
 def _bind_loop_seq(fr, st, binds):
@@ -394,6 +425,7 @@ def exec_for(E, s: ast.For, st, fr):
     if not hasattr(fr, "loop_doms"):
         fr.loop_doms = []
     fr.loop_doms.append("$dom%d" % id(s) if dom.get("seq") is not None else None)
+    _heads0 = len(getattr(fr, "loop_heads", []))
     try:
         # 1. invariant holds on entry (idx = 0)
         check_invs(E, fr, st, spec, k, "inv-entry", z3.IntVal(0))
@@ -436,6 +468,9 @@ def exec_for(E, s: ast.For, st, fr):
         if dom["kind"] != "list":
             head.assume(i <= dom["length"](head))
         assume_invs(E, fr, head, spec, i)
+        if not hasattr(fr, "loop_heads"):
+            fr.loop_heads = []
+        fr.loop_heads.append(head.copy())
         # 3. exit path
         exit_st = head.copy()
         exit_st.assume(i >= dom["length"](exit_st), True)
@@ -449,6 +484,7 @@ def exec_for(E, s: ast.For, st, fr):
         exits = [exit_st]
         for o in outs:
             if o.kind in ("ok", "cont"):
+                _cover_body_end(E, fr, o.st, k)
                 check_invs(E, fr, o.st, spec, k, "inv-step", o.st.locals[idxname].z)
                 E.loop_frame_check(o.st, fr, keys, k, "frame-step")
             elif o.kind == "break":
@@ -461,6 +497,8 @@ def exec_for(E, s: ast.For, st, fr):
     finally:
         fr.loop_entry.pop()
         fr.loop_doms.pop()
+        if hasattr(fr, "loop_heads"):
+            del fr.loop_heads[_heads0:]
 
 
 def exec_while(E, s: ast.While, st, fr):
@@ -476,6 +514,7 @@ def exec_while(E, s: ast.While, st, fr):
     names = assigned_names(s.body)
     entry = st.copy()
     fr.loop_entry.append(entry)
+    _heads0 = len(getattr(fr, "loop_heads", []))
     try:
         check_invs(E, fr, st, spec, k, "inv-entry", None)
 
@@ -491,6 +530,9 @@ def exec_while(E, s: ast.While, st, fr):
         havoc_for_loop(E, head, fr, names, keys, entry, hy)
         prune_pc(E, head, fr)
         assume_invs(E, fr, head, spec, None)
+        if not hasattr(fr, "loop_heads"):
+            fr.loop_heads = []
+        fr.loop_heads.append(head.copy())
         exit_st = head.copy()
         saved = fr.exc
         fr.exc = []
@@ -507,6 +549,7 @@ def exec_while(E, s: ast.While, st, fr):
         exits = [exit_st]
         for o in outs:
             if o.kind in ("ok", "cont"):
+                _cover_body_end(E, fr, o.st, k)
                 check_invs(E, fr, o.st, spec, k, "inv-step", None)
                 E.loop_frame_check(o.st, fr, keys, k, "frame-step")
                 if dec0 is not None:
@@ -521,3 +564,5 @@ def exec_while(E, s: ast.While, st, fr):
         return result
     finally:
         fr.loop_entry.pop()
+        if hasattr(fr, "loop_heads"):
+            del fr.loop_heads[_heads0:]
